@@ -6,6 +6,7 @@ package main
 import (
 	"context"
 	"fmt"
+	"runtime"
 	"sort"
 	"strings"
 	"sync/atomic"
@@ -51,19 +52,19 @@ type live struct {
 }
 
 type run struct {
-	sc       *Scenario
-	engine   string
-	ctx      context.Context
-	rt       wazero.Runtime
-	sid      int64
-	insts    []*live
-	byPlan   []*live
-	byName   map[string]*live
-	ncell    int
-	probes   map[uint32]bool
-	trace    []string // observation transcript (engine-independent): compared across engines
-	failed   bool
-	opIdx    int
+	sc     *Scenario
+	engine string
+	ctx    context.Context
+	rt     wazero.Runtime
+	sid    int64
+	insts  []*live
+	byPlan []*live
+	byName map[string]*live
+	ncell  int
+	probes map[uint32]bool
+	trace  []string // observation transcript (engine-independent): compared across engines
+	failed bool
+	opIdx  int
 }
 
 func vio(kind, sig, what string, in, exp, act any) {
@@ -82,7 +83,7 @@ func newRun(sc *Scenario, engine string) *run {
 	} else {
 		rc = wazero.NewRuntimeConfigInterpreter()
 	}
-	rc = rc.WithCoreFeatures(api.CoreFeaturesV2|experimental.CoreFeaturesThreads).WithMemoryLimitPages(sc.Limit)
+	rc = rc.WithCoreFeatures(api.CoreFeaturesV2 | experimental.CoreFeaturesThreads).WithMemoryLimitPages(sc.Limit)
 	r := &run{sc: sc, engine: engine, ctx: ctx, rt: wazero.NewRuntimeWithConfig(ctx, rc), sid: sidCounter.Add(1),
 		byName: map[string]*live{}, probes: map[uint32]bool{0: true, 65535: true, 65536: true}}
 	orc.Askf("c04 new %d %s %s", r.sid, b01(engine == "compiler"), b01(f2AsIs))
@@ -692,7 +693,24 @@ func (r *run) captureVio(where string, mut bool, d *Desc, want, have any) {
 // failedInstCheck (tie C, "a failed instantiation leaves earlier instances usable and consistent"):
 // every earlier instance still answers, and its state changed at most inside the footprint the failing module's
 // segments / start function may legitimately have written before the failure.
+// gcChurn: collections plus allocations that reuse freed memory.  Whatever only a FAILED instance kept alive
+// (functions its element segments wrote into an imported table) must not depend on that instance being traced.
+func gcChurn() {
+	for k := 0; k < 3; k++ {
+		runtime.GC()
+	}
+	var keep [][]byte
+	for k := 0; k < 400; k++ {
+		keep = append(keep, make([]byte, 1<<(6+k%9)))
+	}
+	runtime.GC()
+	runtime.KeepAlive(keep)
+}
+
 func (r *run) failedInstCheck(d *Desc, class, before string) {
+	if class != "import" {
+		gcChurn()
+	}
 	after := r.dump(false)
 	if r.failed {
 		return
@@ -1003,6 +1021,8 @@ func (r *run) step(op *Op) {
 
 // runScenario: both engines, each against the model; then the engines' transcripts against each other.
 func runScenario(sc *Scenario) {
+	progress("BEGIN " + sc.key())
+	defer progress("END " + sc.key())
 	var traces [2][]string
 	for e, engine := range []string{"interpreter", "compiler"} {
 		r := newRun(sc, engine)
